@@ -10,10 +10,10 @@ from sa.poly import RF, fn_atom
 from sa.selftest import Edit, Variant
 from sa.sym import ClassRef, Cond, Interp, Rec, explore, method_of, to_rf, closure_of
 
-from sa.texts import T as _T
+from sa.texts import T as _TX
 
-EXPLANATION = _T["C19"]["explanation"] + " Not decided: " + _T["C19"]["not_decided"] + "."
-ASSUMPTIONS = _T["C19"]["assumptions"]
+EXPLANATION = _TX["C19"]["explanation"] + " Not decided: " + _TX["C19"]["not_decided"] + "."
+ASSUMPTIONS = _TX["C19"]["assumptions"]
 P = "C19"
 S = RF.sym
 
